@@ -527,6 +527,11 @@ def n3Suffixes (base : String) : List String → List String
   | [] => [base]
   | l :: t => (".".intercalate (l :: t) ++ "." ++ base) :: n3Suffixes base t
 
+/-- the queried name itself: the first name every proof hashes. -/
+def n3Full (base : String) : List String → String
+  | [] => base
+  | l :: t => ".".intercalate (l :: t) ++ "." ++ base
+
 /-- `findClosestEncloserWithWork`: names are hashed upwards until one owns a record of the ring. -/
 def n3Climb (ring : List String) : List String → List String × Option String
   | [] => ([], none)
@@ -556,9 +561,8 @@ deriving Repr, DecidableEq
 /-- one required denial validation on the tree's ledger. -/
 def n3Verify (p : Policy) (memoCap : Nat) (nodata : Bool) (ring : List String) (base : String) (labels : List String)
     (sh : Shared) (memo : N3Memo) : Shared × N3Memo × N3Out :=
-  let plan := n3Plan nodata ring (n3Suffixes base labels)
-  match n3Run p memoCap plan.1 [] sh memo with
-  | (sh', memo', .ok) => (sh', memo', if plan.2 then .secure else .bogus)
+  match n3Run p memoCap (n3Plan nodata ring (n3Suffixes base labels)).1 [] sh memo with
+  | (sh', memo', .ok) => (sh', memo', if (n3Plan nodata ring (n3Suffixes base labels)).2 then .secure else .bogus)
   | (sh', memo', .limit k lim) => (sh', memo', .work k lim)
 
 /-! ### the cache's alias chase and the request deadline -/
